@@ -40,11 +40,38 @@ impl TypeRegistry {
     }
 
     pub(crate) fn unresolved(&self) -> Vec<ItemPath> {
+        #[cfg(pyxis_verif)]
+        if crate::verif::is_active() {
+            if let Some(ordered) = crate::verif::order_worklist(self.worklist_for_verif()) {
+                return ordered;
+            }
+        }
+
         self.types
             .iter()
             .filter(|(_, t)| !t.is_predefined() && !t.is_resolved())
             .map(|(k, _)| k.clone())
             .collect()
+    }
+
+    #[cfg(pyxis_verif)]
+    pub(crate) fn worklist_for_verif(&self) -> Vec<ItemPath> {
+        let mut worklist: Vec<ItemPath> = self
+            .types
+            .iter()
+            .filter(|(_, t)| !t.is_predefined() && !t.is_resolved())
+            .map(|(k, _)| k.clone())
+            .collect();
+        worklist.sort();
+        worklist
+    }
+
+    #[cfg(pyxis_verif)]
+    pub(crate) fn dump_for_verif(&self) -> String {
+        let mut items: Vec<&ItemDefinition> =
+            self.types.values().filter(|t| !t.is_predefined()).collect();
+        items.sort_by_key(|t| &t.path);
+        items.iter().map(|t| format!("{t:?}\n")).collect()
     }
 
     pub(crate) fn add(&mut self, type_: ItemDefinition) {
